@@ -2,8 +2,8 @@ package main
 
 import (
 	"fmt"
-	"go/types"
 	"go/token"
+	"go/types"
 	"sort"
 	"strings"
 
@@ -41,6 +41,9 @@ var gogitMutators = map[string][]string{
 
 func runC15(c *Ctx) {
 	w := c.W
+	// what git-bug attaches stays reachable from its refs (shared with C04)
+	checkFilesTravel(c)
+	checkRefTargets(c)
 	c.Doc("R15.1", "go-git mutators are called only from their wrapper in package repository; worktree/branch/tag/index/shallow mutators from nowhere")
 	c.Doc("R15.2", "ref argument of UpdateRef/CopyRef(dest)/RemoveRef outside package repository evaluates to refs/‹ns›/… or refs/remotes/‹remote›/‹ns›/…")
 	c.Doc("R15.3", "fetch refspec refs/‹p›/*:refs/remotes/‹remote›/‹p›/*, push refspec refs/‹p›/*:refs/‹p›/*; callers pass entity namespaces")
@@ -289,19 +292,19 @@ func checkRefspecs(c *Ctx) {
 func checkFileWriters(c *Ctx) {
 	w := c.W
 	reviewed := map[string]string{
-		"repository.openBleveIndex":         "bleve index directory under localStorage.Root()/indexes",
-		"repository.makeIndex":              "bleve index directory under localStorage.Root()/indexes",
-		"repository.bleveIndex.Clear":       "removes and recreates its own index directory",
-		"repository.bleveIndex.makeIndex":   "bleve index directory under localStorage.Root()/indexes",
-		"repository.GoGitRepo.EraseFromDisk": "test-only helper of the TestedRepo interface",
-		"commands/input.launchEditor":       "editor scratch file created through LocalStorage, removed afterwards",
+		"repository.openBleveIndex":               "bleve index directory under localStorage.Root()/indexes",
+		"repository.makeIndex":                    "bleve index directory under localStorage.Root()/indexes",
+		"repository.bleveIndex.Clear":             "removes and recreates its own index directory",
+		"repository.bleveIndex.makeIndex":         "bleve index directory under localStorage.Root()/indexes",
+		"repository.GoGitRepo.EraseFromDisk":      "test-only helper of the TestedRepo interface",
+		"commands/input.launchEditor":             "editor scratch file created through LocalStorage, removed afterwards",
 		"commands/input.LaunchEditorWithTemplate": "editor scratch file through LocalStorage",
-		"commands/input.LaunchEditor":       "editor scratch file through LocalStorage",
-		"util/lamport.PersistedClock.Write": "clock file under localStorage/clocks (billy util.WriteFile)",
-		"cache.SubCache.write":              "cache file under localStorage/cache",
-		"cache.RepoCache.lock":              "lock file under localStorage",
-		"cache.RepoCache.Close":             "removes the lock file",
-		"cache.repoIsAvailable":             "removes a stale lock file",
+		"commands/input.LaunchEditor":             "editor scratch file through LocalStorage",
+		"util/lamport.PersistedClock.Write":       "clock file under localStorage/clocks (billy util.WriteFile)",
+		"cache.SubCache.write":                    "cache file under localStorage/cache",
+		"cache.RepoCache.lock":                    "lock file under localStorage",
+		"cache.RepoCache.Close":                   "removes the lock file",
+		"cache.repoIsAvailable":                   "removes a stale lock file",
 	}
 	n := 0
 	for _, fn := range w.ModFns {
@@ -629,6 +632,7 @@ func storedFieldValuesAny(fn *ssa.Function, base ssa.Value, field string) []*ssa
 
 func runC14(c *Ctx) {
 	w := c.W
+	checkRebuildAndCLIRemoval(c)
 	c.Doc("R14.1", "RemoveRef arguments evaluate to refs/‹ns›/‹id› and refs/remotes/‹remote›/‹ns›/‹id›, remote ranging over the keys of GetRemotes(); same remote-ref shape as the fetch destination and the MergeAll prefix; identity.Remove removes single full-id matches of ListRefs only")
 	c.Doc("R14.2", "SubCache.Remove/RemoveAll: entity removal, delete from cached/excerpts, lru.Remove, index removal, write() on every success path")
 	c.Doc("R14.3", "runWipe: RemoveAll → ClearUserIdentity → LocalConfig().RemoveAll(\"git-bug\") → Close → LocalStorage.RemoveAll(\".\"), backend closed on every error exit before Close")
@@ -1156,4 +1160,283 @@ func checkSubcacheNamespaces(c *Ctx) {
 	if n < 2 {
 		c.Violate("R15.3", "expected:NewSubCache-callers", "cache", "fewer than 2 sub-caches")
 	}
+}
+
+// R14.4: a rebuild starts from nothing. R14.5: the CLI removes exactly what it was told.
+func checkRebuildAndCLIRemoval(c *Ctx) {
+	w := c.W
+	c.Doc("R14.4", "SubCache.Build installs a fresh, empty excerpt map and clears the index unconditionally before the first excerpt is stored: excerpts loaded from a stale cache file (for instance after a removal interrupted before the cache file was rewritten) cannot survive the rebuild that the count mismatch triggers")
+	c.Doc("R14.5", "the entity removed by a command is the one its argument names: the prefix handed to SubCache.Remove from package commands comes from the command line only, not from a resolution that can fall back to the selected entity")
+	// R14.4
+	var build *ssa.Function
+	for _, fn := range w.ModFns {
+		if fnPkgPath(fn) == modPath+"/cache" && fn.Parent() != nil && fn.Parent().Name() == "Build" && !isInstance(fn.Parent()) {
+			if r := fn.Parent().Signature.Recv(); r != nil && strings.Contains(typeShortName(r.Type()), "SubCache") {
+				build = fn
+			}
+		}
+	}
+	if build == nil {
+		c.Undecided("R14.4", "anchor:SubCache.Build", "cache", "goroutine body not found")
+	} else {
+		build = bodyOf(build)
+		c.seeFn(funcName(build))
+		var reset *ssa.Store
+		var firstUse ssa.Instruction
+		for _, b := range build.Blocks {
+			for _, ins := range b.Instrs {
+				switch x := ins.(type) {
+				case *ssa.Store:
+					if fa, isFA := x.Addr.(*ssa.FieldAddr); isFA && fieldName(fa) == "excerpts" {
+						if _, isMk := x.Val.(*ssa.MakeMap); isMk {
+							reset = x
+						}
+					}
+				case *ssa.MapUpdate:
+					if _, fld, ok := loadOfField(x.Map); ok && fld == "excerpts" && firstUse == nil {
+						firstUse = x
+					}
+				}
+			}
+		}
+		c.Sites++
+		okReset, why := false, "Build does not install a fresh excerpt map"
+		if reset != nil {
+			conds := controlConds(reset.Block(), nil)
+			switch {
+			case len(conds) > 0:
+				why = "the excerpt map is reset only under the condition at " + w.InstrPos(conds[0].If) + ": excerpts already loaded from the cache file survive the rebuild, a removed entity comes back as a ghost that can be listed but neither resolved nor removed"
+			case firstUse != nil && !instrDominates(reset, firstUse):
+				why = "excerpts are stored before the map is reset"
+			default:
+				okReset = true
+			}
+		}
+		c.Check(okReset, "R14.4", "SubCache.Build:starts-from-empty-excerpts", w.FnPos(build), "fresh excerpt map, unconditionally, before the first store", why)
+		okClear := false
+		for _, cl := range Calls(build) {
+			if primEffect(cl.Name) == "INDEX:Clear" && len(controlConds(cl.Block(), nil)) <= 1 {
+				// at most the success of GetIndex
+				okClear = true
+				for _, cc := range controlConds(cl.Block(), nil) {
+					if bo, isBo := cc.If.Cond.(*ssa.BinOp); !isBo || !isErrorType(bo.X.Type()) {
+						okClear = false
+					}
+				}
+			}
+		}
+		c.Check(okClear, "R14.4", "SubCache.Build:clears-index", w.FnPos(build), "the index is cleared before it is refilled", "Build does not clear the search index unconditionally before refilling it")
+	}
+	// R14.5
+	n := 0
+	var selRoots []*ssa.Function
+	for _, fn := range w.ModFns {
+		if fnPkgPath(fn) == modPath+"/commands/select" && (fn.Name() == "Resolve" || fn.Name() == "selected") {
+			selRoots = append(selRoots, fn)
+		}
+	}
+	reachesSelection := func(f *ssa.Function) bool {
+		if f == nil {
+			return false
+		}
+		reach := w.Reach([]*ssa.Function{f}, nil)
+		for r := range reach {
+			if fnPkgPath(r) == modPath+"/commands/select" && (strings.HasPrefix(r.Name(), "Resolve") || r.Name() == "selected") {
+				return true
+			}
+			if o := r.Origin(); o != nil && fnPkgPath(o) == modPath+"/commands/select" {
+				return true
+			}
+		}
+		return false
+	}
+	_ = selRoots
+	for _, fn := range w.ModFns {
+		if isInstance(fn) || !strings.HasPrefix(fnPkgPath(fn), modPath+"/commands") || w.isTestHelper(fn) {
+			continue
+		}
+		for _, cl := range Calls(fn) {
+			if !strings.HasSuffix(cl.Name, "SubCache.Remove") {
+				continue
+			}
+			n++
+			c.Sites++
+			c.seeFn(funcName(fn))
+			args := cl.Args()
+			bad := ""
+			if len(args) > 0 {
+				for _, o := range deepCallOrigins(args[len(args)-1], 0) {
+					cv, isCall := o.Val.(*ssa.Call)
+					if !isCall {
+						continue
+					}
+					callees := w.SiteCallees(cv)
+					if f := cv.Common().StaticCallee(); f != nil {
+						callees = append(callees, f)
+					}
+					for _, callee := range callees {
+						if reachesSelection(callee) {
+							bad = "the prefix removed comes from " + o.Name + ", which falls back to the selected entity when the argument matches nothing: repeating 'rm X' (or a typo) removes the selected, unrelated entity and reports success"
+						}
+					}
+				}
+			}
+			c.Check(bad == "", "R14.5", funcName(fn)+"→Remove:names-its-target", w.InstrPos(cl.Instr), "the prefix removed is the command-line argument", bad)
+		}
+	}
+	if n == 0 {
+		c.Violate("R14.5", "expected:cli-remove-sites", "commands", "no call of SubCache.Remove from the commands found (reference: bug rm)")
+	}
+}
+
+// deepCallOrigins: the calls a value comes from, following the receivers of method calls
+// (b.Id().String() comes from String, from Id, and from whatever produced b).
+func deepCallOrigins(v ssa.Value, depth int) []Origin {
+	var out []Origin
+	if depth > 5 {
+		return out
+	}
+	for _, o := range origins(v) {
+		if o.Kind != "call" {
+			continue
+		}
+		out = append(out, o)
+		cv, isCall := o.Val.(*ssa.Call)
+		if !isCall {
+			continue
+		}
+		var recv ssa.Value
+		if cv.Common().IsInvoke() {
+			recv = cv.Common().Value
+		} else if f := cv.Common().StaticCallee(); f != nil && f.Signature.Recv() != nil && len(cv.Common().Args) > 0 {
+			recv = cv.Common().Args[0]
+		}
+		for recv != nil {
+			// the receiver may be an embedded field of the value that matters
+			if fa, isFA := recv.(*ssa.FieldAddr); isFA {
+				recv = fa.X
+				continue
+			}
+			if fl, isF := recv.(*ssa.Field); isF {
+				recv = fl.X
+				continue
+			}
+			break
+		}
+		if recv != nil {
+			out = append(out, deepCallOrigins(recv, depth+1)...)
+		}
+	}
+	return out
+}
+
+// R15.10: a ref is only ever set to the result of a successful write or resolution.
+func checkRefTargets(c *Ctx) {
+	w := c.W
+	c.Doc("R15.10", "the hash handed to UpdateRef outside package repository is the result of a call (pack/commit write, ResolveRef) and the UpdateRef is dominated by the success edge of that call: a failed write can never leave a ref pointing at the zero hash or at a half-written object")
+	n := 0
+	for _, fn := range w.ModFns {
+		if isInstance(fn) || fnPkgPath(fn) == modPath+"/repository" || w.isTestHelper(fn) {
+			continue
+		}
+		for _, cl := range Calls(fn) {
+			if primEffect(cl.Name) != "REF:UpdateRef" {
+				continue
+			}
+			args := cl.Args()
+			if len(args) < 2 {
+				continue
+			}
+			n++
+			c.Sites++
+			c.seeFn(funcName(fn))
+			ok, why := true, ""
+			nCalls, nOther := 0, 0
+			for _, o := range origins(args[1]) {
+				switch o.Kind {
+				case "call":
+					nCalls++
+					cv, isCall := o.Val.(*ssa.Call)
+					if !isCall || !errResultOfCall(cv) {
+						continue
+					}
+					// the call's error is tested, and its failure never reaches this ref update
+					fbs := failureBlocksThroughPhi(cv)
+					if len(fbs) == 0 {
+						ok, why = false, "the hash comes from "+o.Name+" at "+w.InstrPos(cv)+" whose error is not checked before the ref is set: when that call fails the ref is set to the zero hash — 'git fsck' reports an invalid pointer and the previous head becomes a dangling commit"
+						continue
+					}
+					for _, fb := range fbs {
+						if found, _, _ := pathSearch(fn, nil, fb, func(i ssa.Instruction) bool { return i == cl.Instr }, nil, false); found {
+							ok, why = false, "after "+o.Name+" failed at "+w.InstrPos(cv)+" the ref update is still reachable: the ref can be set to a hash that was never written"
+						}
+					}
+				case "const":
+					// initial value of a loop-carried variable; alone it would be a constant ref target
+				default:
+					nOther++
+				}
+			}
+			if nCalls == 0 && nOther == 0 {
+				ok, why = false, "a constant hash is written to a ref"
+			}
+			if nCalls == 0 && nOther > 0 && ok {
+				// parameter or field: the caller's obligation
+				c.Info("R15.10", funcName(fn)+":UpdateRef#"+fmt.Sprint(n), w.InstrPos(cl.Instr), "hash handed in by the caller")
+				continue
+			}
+			c.Check(ok, "R15.10", funcName(fn)+":UpdateRef@"+refShape(cl), w.InstrPos(cl.Instr), "ref set to the result of a successful call", why)
+		}
+	}
+	if n < 4 {
+		c.Violate("R15.10", "expected:UpdateRef-sites", "module", fmt.Sprintf("%d UpdateRef sites outside package repository (reference 6)", n))
+	}
+}
+
+func errResultOfCall(cv *ssa.Call) bool {
+	sig := cv.Common().Signature()
+	if sig == nil {
+		return false
+	}
+	for i := 0; i < sig.Results().Len(); i++ {
+		if isErrorType(sig.Results().At(i).Type()) {
+			return true
+		}
+	}
+	return false
+}
+
+// refShape: a stable discriminator of an UpdateRef site: the template of its ref argument
+func refShape(cl *Call) string {
+	args := cl.Args()
+	if len(args) == 0 {
+		return "?"
+	}
+	var shapes []string
+	for _, t := range templatesOf(args[0]) {
+		shapes = append(shapes, t.String())
+	}
+	sort.Strings(shapes)
+	s := strings.Join(shapes, "|")
+	if s == "" {
+		s = "?"
+	}
+	if len(s) > 60 {
+		s = s[:60]
+	}
+	return s + "←" + originNames(args[1])
+}
+
+func originNames(v ssa.Value) string {
+	var ns []string
+	for _, o := range origins(v) {
+		if o.Kind == "call" {
+			_, m := lastDot(o.Name)
+			ns = append(ns, m)
+		} else {
+			ns = append(ns, o.Kind)
+		}
+	}
+	sort.Strings(ns)
+	return strings.Join(ns, ",")
 }
